@@ -19,6 +19,8 @@ pub struct PassState {
     pub invocations: u64,
     pub total_passes: u64,
     pub max_passes: usize,
+    /// most tokens emitted in one completed pass
+    pub max_work: u64,
     /// Some("periodic(p)") / Some("divergent") once a verdict was reached
     pub verdict: Option<String>,
 }
@@ -42,7 +44,16 @@ fn periodic(d: &[u64]) -> Option<usize> {
     None
 }
 
+/// Logical clock inside one pass: tokens emitted. Calibrated against the corpus: the largest pass
+/// of any corpus project emits fewer than 5 000 tokens (reported as `max_tokens_emitted_in_one_pass`
+/// in the C06 evidence), so a pass that is still emitting after 60 000 tokens is an expansion that
+/// feeds itself. (A runaway expansion also slows down as it goes - every invocation adds a scope - so
+/// the budget cannot be generous: 100 000 tokens already take minutes.)
+pub const WORK_BUDGET: u64 = 60_000;
+pub const WORK_BUDGET_MARKER: &str = "VERIF-WORK-BUDGET";
+
 pub fn install() {
+    verif_hooks::set_work_budget(WORK_BUDGET);
     let st = Rc::new(RefCell::new(PassState::default()));
     STATE.with(|s| *s.borrow_mut() = Some(st.clone()));
     verif_hooks::set_observer(Some(Box::new(move |pass: usize, digest: u64| {
@@ -52,6 +63,7 @@ pub fn install() {
             s.invocations += 1;
         }
         s.total_passes += 1;
+        s.max_work = s.max_work.max(verif_hooks::work_done());
         if s.digests.len() < 64 {
             s.digests.push(digest);
         } else {
@@ -77,6 +89,7 @@ pub fn install() {
 
 pub fn uninstall() -> PassState {
     verif_hooks::set_observer(None);
+    verif_hooks::set_work_budget(0);
     STATE
         .with(|s| s.borrow_mut().take())
         .map(|rc| rc.borrow().clone())
